@@ -122,6 +122,9 @@ func isolate(script string, seq int) string {
 		}
 		body, rest := b[:i], b[i+len("(pop 1)"):]
 		if strings.Contains(body, marker) {
+			// keep the solver in incremental mode (push): z3's non-incremental preprocessing makes
+			// the quantified goals of this encoding much harder
+			sb.WriteString("(push 1)")
 			sb.WriteString(body)
 			sb.WriteString("\n(exit)\n")
 			return sb.String()
@@ -187,6 +190,9 @@ func solvePath(ps *PathScript, workDir string, perQueryMs int, onlySolver string
 			}
 			res, secs, err := runScript(sv, file, ms, 1)
 			record(sv, secs)
+			if os.Getenv("GOVC_SLOW") != "" && secs > 2 {
+				fmt.Fprintf(os.Stderr, "slow: %.1fs %s %s -> %v\n", secs, sv.Name, o.Name, res[o.Seq])
+			}
 			r, ok := res[o.Seq]
 			if err != nil && !ok {
 				if o.Status == "" {
